@@ -135,6 +135,24 @@ fn prepare(case: &PhaseCase) -> (Views, Typed, Vec<Typed>) {
         let _ = sim.apply(&rop);
         pre = sim.views();
     }
+    // a history that ends without a cluster (never created, refused for lack of proxies, removed) says
+    // nothing about routing: continue it with registrations, a creation and a scale-out
+    if !pre.clusters.contains_key("c0") {
+        let tail = [
+            brokersim::Op::AddProxy { host: 0 },
+            brokersim::Op::AddProxy { host: 1 },
+            brokersim::Op::AddProxy { host: 0 },
+            brokersim::Op::AddProxy { host: 1 },
+            brokersim::Op::AddCluster { c: 0, nodes: 4 },
+            brokersim::Op::AddNodesSmart { c: 0, k: 0 },
+            brokersim::Op::Migrate { c: 0 },
+        ];
+        for op in &tail {
+            let rop = sim.resolve(op, &pre);
+            let _ = sim.apply(&rop);
+            pre = sim.views();
+        }
+    }
     let mut typed = BTreeMap::new();
     for a in pre.proxies.keys() {
         if let Ok(Some(p)) = sim.rt.block_on(sim.svc.get_proxy_by_address(a)) {
